@@ -63,7 +63,9 @@ let () =
     match split_ws line with
     | "E" :: src :: lvl :: tm :: msg :: chain :: attrs :: nw :: writes ->
         incr cases;
-        if int_of_string nw <> List.length writes then failwith "write count";
+        (* exactly nw write fields; anything after them (diagnostics of an earlier verdict line) is ignored *)
+        let rec take n l = if n = 0 then [] else (match l with [] -> failwith "write count" | x :: r -> x :: take (n - 1) r) in
+        let writes = take (int_of_string nw) writes in
         let r = { time_txt = bytes_of_hex tm; lvl = level_of lvl;
                   src = (if src = "~" then None else Some (bytes_of_hex src));
                   msg = bytes_of_hex msg; attrs = (let i = ref 0 in parse_attrs attrs i) } in
